@@ -31,7 +31,13 @@ ChainDown(c, a) == IF c = a \/ ~Known(G, c) \/ Parent(G, c) = "" THEN <<>> ELSE 
 Err(what) == [ok |-> FALSE, what |-> what, rest |-> <<>>]
 Ok(rest)  == [ok |-> TRUE, what |-> "", rest |-> rest]
 
-Allowed(dec, maxd, offered, c) == ChoicesD(D, IsRec, dec, offered, c, maxd)
+\* ProgressivelyTerminalDecider: target = get_max_node_depth() of the implementation's own table, grammar weights as reported
+PtTargetImpl == LET m == SMax({ImplDist[n] : n \in RangeOf(Cfg.impl0.nodes) \cap DOMAIN ImplDist} \cup {0})
+                IN IF m >= INF THEN Cfg.impl0.mindepth * Len(Cfg.impl0.recursive) ELSE m
+W(f) == IF f.k = "sym" /\ f.s \in RangeOf(Cfg.impl0.wkeys) THEN Cfg.impl0.weights[f.s] ELSE 10000
+Allowed(dec, maxd, offered, c) ==
+    IF dec = "pt" THEN PtSetD(D, IsRec, W, offered, c, PtTargetImpl, "closest")
+    ELSE ChoicesD(D, IsRec, dec, offered, c, maxd)
 
 \* consume one decision for symbol `sym` (abstract class name or "union") at depth c choosing `chosen` (a form)
 Consume(ds, sym, c, offeredForms, chosenForm, dec, maxd) ==
